@@ -32,6 +32,16 @@ def check(report, tier, seed):
     for mk in (lambda r: histgen.mem_program(r, False), lambda r: histgen.mem_program(r, False), lambda r: histgen.mem_program(r, False),
                lambda r: histgen.mem_program(r, True), histgen.regfile_program, lambda r: histgen.bank_program(r)[0]):
         progs.append((mk(rng), gen.yo_image(rng, 10 * 12 + 30), None))
+    # register banks whose entries do not fit a dump line (a long name next to many hex digits): the bank lines are
+    # exactly what -t leaves out, so nothing about them may influence the run
+    for _ in range(2):
+        n1 = "instruction_bytes_as_fetched_in_the_previous_cycle" + "_x" * rng.randint(0, 12)
+        n2 = "w" + "y" * rng.randint(30, 70)
+        progs.append(("\n".join(["register pP { pc : 64 = 0; }", "p_pc = P_pc + 10;", "pc = P_pc;",
+                                 "register fD { pc : 64 = 0; %s : 80 = 0; %s : 128 = 1; short : 3 = 2; }" % (n1, n2),
+                                 "f_pc = P_pc;", "f_%s = i10bytes;" % n1, "f_%s = (i10bytes .. (P_pc)[0..48]);" % n2, "f_short = (D_short + 1);",
+                                 "Stat = [ P_pc == %d : STAT_HLT; 1 : STAT_AOK ];" % (10 * rng.randint(1, 3))]) + "\n",
+                      gen.yo_image(rng, 80), None))
     # a decoder-like program marching over an image whose instruction bytes take EVERY value of the
     # first byte (all opcodes and function codes, valid or not): code that only runs under some
     # options (the disassembler, the component messages) must not influence the run
